@@ -3,6 +3,7 @@
 package mc
 
 import (
+	authtypes "github.com/cosmos/cosmos-sdk/x/auth/types"
 	"encoding/json"
 	"fmt"
 	"math"
@@ -216,6 +217,10 @@ func c03Setup() *c03Env {
 	mk("uatom", 1e12, 5e12, 1, 1, "0.003")
 	mk("uatom", 4e6, 5e6, 80, 20, "0.01")
 	mk("uelys", 1e9, 1e9, 1, 2, "0")
+	// the DEEPEST uatom/uusdc pool of the chain (three times the fixture's oracle pool): the pool masterchef's
+	// end-block fee conversion goes through — msgseq's fee-block variant needs the trader and the conversion on
+	// the same pool
+	mk("uatom", 3e12, 15e12, 1, 1, "0.003")
 	return e
 }
 
@@ -393,6 +398,18 @@ func c03Forms() []c03Form {
 }
 
 func (e *c03Env) msgseq(st *KStats, pi int, depth int) {
+	e.msgseqVariant(st, pi, depth, false)
+	// the same sequences in blocks that ALSO carry a dust gas fee paid in asset A: masterchef's end-blocker then
+	// converts it to USDC through the best A/USDC pool AFTER the amm end-blocker executed the trader's swap —
+	// only where the pool under test is that best pool (the conversion must touch the pool the trader uses)
+	e.msgseqVariant(st, pi, depth, true)
+}
+
+// c03FeeDust: the gas fee of the fee-block variant, in base units of asset A (its whole value is added to the
+// allowance: a third party selling A moves the price in favour of a trader who buys A)
+const c03FeeDust = 1000
+
+func (e *c03Env) msgseqVariant(st *KStats, pi int, depth int, feeBlocks bool) {
 	w := e.w
 	poolId := e.pools[pi]
 	base, _ := w.Ctx().CacheContext()
@@ -403,10 +420,21 @@ func (e *c03Env) msgseq(st *KStats, pi int, depth int) {
 	ra, rb := p.PoolAssets[0].Token.Amount, p.PoolAssets[1].Token.Amount
 	equal := p.PoolAssets[0].Weight.Equal(p.PoolAssets[1].Weight)
 	forms := c03Forms()
+	if feeBlocks {
+		best, found := w.App.AmmKeeper.GetBestPoolWithDenoms(base, []string{a, "uusdc"}, false)
+		if !found || best.PoolId != poolId || a == "uusdc" {
+			return
+		}
+	}
 	allow := func(reserve sdkmath.Int, hops int) float64 {
 		per := 1 + 2*float64FromInt(reserve)*1e-18
 		if !equal {
 			per = 1 + 1.0001e-8*float64FromInt(reserve)
+		}
+		if feeBlocks {
+			// every block's converted fee (at most c03FeeDust of A, worth at most that many times the B/A reserve
+			// ratio in B) shifts the pool in the trader's favour on one side
+			per += c03FeeDust * (1 + float64FromInt(rb)/float64FromInt(ra))
 		}
 		return per * float64(hops)
 	}
@@ -424,7 +452,18 @@ func (e *c03Env) msgseq(st *KStats, pi int, depth int) {
 		if err == nil {
 			// a swap message only queues a request; the amm end-blocker executes the queue — one
 			// message per block here (same-block batches are C04's subject)
+			if feeBlocks {
+				// the block's gas fee, paid in asset A by another account, sits in the fee collector
+				_ = w.App.BankKeeper.SendCoinsFromAccountToModule(cc, w.A("t3").Addr, authtypes.FeeCollectorName, sdk.NewCoins(sdk.NewCoin(a, sdkmath.NewInt(c03FeeDust))))
+			}
 			w.App.AmmKeeper.EndBlocker(cc)
+			if feeBlocks {
+				func() {
+					defer func() { recover() }()
+					_ = w.App.MasterchefKeeper.EndBlocker(cc) // runs after amm's in the real block
+				}()
+				st.Clauses["msg_sequence_blocks_with_fee_conversion"]++
+			}
 			write()
 		}
 		return err
@@ -451,26 +490,26 @@ func (e *c03Env) msgseq(st *KStats, pi int, depth int) {
 			dB := w.App.BankKeeper.GetBalance(c, who.Addr, b).Amount.Sub(b0)
 			fa, fb := float64FromInt(dA), float64FromInt(dB)
 			alA, alB := allow(ra, hops), allow(rb, hops)
-			in := map[string]interface{}{"part": "msgseq", "pool": pi, "path": append([]string{}, path...)}
+			in := map[string]interface{}{"part": "msgseq", "pool": pi, "path": append([]string{}, path...), "blocks_with_fee_conversion": feeBlocks}
 			if os.Getenv("VERIF_DEBUG_C03") != "" {
 				fmt.Fprintf(os.Stderr, "msgseq pool=%d %v dA=%s dB=%s\n", poolId, path, dA, dB)
 			}
 			switch {
 			case fa >= -0.5 && fb >= -0.5:
 				if fa > alA || fb > alB {
-					find(Finding{Clause: "sequence_gains_from_nothing", Culprit: "msg_swap", Disc: fmt.Sprintf("pool_weights_equal=%v", equal), Detail: fmt.Sprintf("pool %d: %v leaves the trader with %+.0f %s and %+.0f %s", poolId, path, fa, a, fb, b)}, in)
+					find(Finding{Clause: "sequence_gains_from_nothing", Culprit: "msg_swap", Disc: fmt.Sprintf("pool_weights_equal=%v,blocks_with_fee_conversion=%v", equal, feeBlocks), Detail: fmt.Sprintf("pool %d: %v leaves the trader with %+.0f %s and %+.0f %s", poolId, path, fa, a, fb, b)}, in)
 				}
 			case dA.IsNegative() && dB.IsPositive():
 				ref := formula(true, dA.Neg())
 				st.Clauses["net_vs_formula"]++
 				if g := fb - ref; g > alB+ref*1e-12 {
-					find(Finding{Clause: "sequence_beats_fee_free_formula", Culprit: "msg_swap", Disc: fmt.Sprintf("pool_weights_equal=%v", equal), Detail: fmt.Sprintf("pool %d: %v net sells %s %s for %s %s; the fee-free formula on the start reserves allows %.0f (gain %+.0f, allowance %.3f)", poolId, path, dA.Neg(), a, dB, b, ref, g, alB)}, in)
+					find(Finding{Clause: "sequence_beats_fee_free_formula", Culprit: "msg_swap", Disc: fmt.Sprintf("pool_weights_equal=%v,blocks_with_fee_conversion=%v", equal, feeBlocks), Detail: fmt.Sprintf("pool %d: %v net sells %s %s for %s %s; the fee-free formula on the start reserves allows %.0f (gain %+.0f, allowance %.3f)", poolId, path, dA.Neg(), a, dB, b, ref, g, alB)}, in)
 				}
 			case dB.IsNegative() && dA.IsPositive():
 				ref := formula(false, dB.Neg())
 				st.Clauses["net_vs_formula"]++
 				if g := fa - ref; g > alA+ref*1e-12 {
-					find(Finding{Clause: "sequence_beats_fee_free_formula", Culprit: "msg_swap", Disc: fmt.Sprintf("pool_weights_equal=%v", equal), Detail: fmt.Sprintf("pool %d: %v net sells %s %s for %s %s; the fee-free formula on the start reserves allows %.0f (gain %+.0f, allowance %.3f)", poolId, path, dB.Neg(), b, dA, a, ref, g, alA)}, in)
+					find(Finding{Clause: "sequence_beats_fee_free_formula", Culprit: "msg_swap", Disc: fmt.Sprintf("pool_weights_equal=%v,blocks_with_fee_conversion=%v", equal, feeBlocks), Detail: fmt.Sprintf("pool %d: %v net sells %s %s for %s %s; the fee-free formula on the start reserves allows %.0f (gain %+.0f, allowance %.3f)", poolId, path, dB.Neg(), b, dA, a, ref, g, alA)}, in)
 				}
 			}
 		}
@@ -700,7 +739,7 @@ func RunC03(tier string) int {
 	for i := 0; i < 3; i++ {
 		units = append(units, c03Unit{Part: "seq", I: i, Tier: tier})
 	}
-	for i := 0; i < 3; i++ {
+	for i := 0; i < 4; i++ {
 		d := 2
 		if tier == "thorough" {
 			d = 3
